@@ -692,7 +692,7 @@ def simulate(plan):
 # ------------------------------------------------------------------------------ runner interface
 def plan(tier, seed, scale=1.0):
     n_workers = 16
-    per = int({"quick": 900, "thorough": 12000}[tier] * scale)
+    per = int({"quick": 900, "thorough": 10000}[tier] * scale)
     return [{"seed": seed * 1000 + w, "n": per, "tier": tier} for w in range(n_workers)]
 
 
